@@ -68,11 +68,21 @@ def _k17_one(ctx, pid, p, mgr, mod_cls, vec_cls, fi):
                 return out
             V, m1, m2 = I.ents
             out.append(("K17.vector", name, m.attrs.get("vector") is V, "the manager's vector must be the receiver, got %r" % (m.attrs.get("vector"),)))
+            def seq_items(v):
+                # a list or a tuple of the very objects (an immutable copy holds the same modules)
+                if isinstance(v, AList) and not v.generic:
+                    return list(v.items)
+                if isinstance(v, tuple):
+                    return list(v)
+                return None
+
             mods = m.attrs.get("modules")
-            okm = isinstance(mods, AList) and not mods.generic and len(mods.items) == 2 and mods.items[0] is m1 and mods.items[1] is m2
+            mi = seq_items(mods)
+            okm = mi is not None and len(mi) == 2 and mi[0] is m1 and mi[1] is m2
             out.append(("K17.modules", name, okm, "the manager must receive every module passed (first and *rest): %r" % (mods,)))
             els = m.attrs.get("elements")
-            oke = isinstance(els, AList) and {id(x) for x in els.items} == {id(V), id(m1), id(m2)} and len(els.items) == 3
+            ei = seq_items(els)
+            oke = ei is not None and {id(x) for x in ei} == {id(V), id(m1), id(m2)} and len(ei) == 3
             out.append(("K17.elements", name, oke, "the elements whose citations are rewritten must be all modules and the vector: %r" % (els,)))
             want_id, want_name = (ID, NAME) if given else ("assembly", "assembly")
             out.append(("K17.id", name, m.attrs.get("id") == want_id, "the requested id must reach the manager's id, got %r" % (m.attrs.get("id"),)))
